@@ -26,7 +26,8 @@ pub struct Case {
     /// 0 all true, 1 single false, 2 plain cancelling pair inside one label, 3 plain cancelling pair across labels,
     /// 4 challenge-weighted cancellation across two labels carrying one point value,
     /// 5 proofs swapped, 6 one proof duplicated over another, 7 one proof missing, 8 one proof surplus,
-    /// 9 a group element added to one label's proof and subtracted from another's (cancels under equal randomizers)
+    /// 9 a group element added to one label's proof and subtracted from another's (cancels under equal randomizers),
+    /// 10 the first label's proof replaced by a prover-built forgery of the attack catalogue, with its false claims
     pub variant: u8,
     pub sel: u64,
 }
@@ -36,7 +37,7 @@ pub fn case() -> impl Strategy<Value = Case> {
         scn_with(2, 5, 2),
         prop_oneof![
             1 => Just(0u8), 3 => Just(1u8), 2 => Just(2u8), 2 => Just(3u8), 3 => Just(4u8),
-            2 => Just(5u8), 1 => Just(6u8), 1 => Just(7u8), 1 => Just(8u8), 2 => Just(9u8)
+            2 => Just(5u8), 1 => Just(6u8), 1 => Just(7u8), 1 => Just(8u8), 2 => Just(9u8), 2 => Just(10u8)
         ],
         any::<u64>(),
     )
@@ -107,7 +108,7 @@ impl Cancel for ULigero {}
 impl Cancel for MLigero {}
 impl Cancel for Brakedown {}
 
-pub fn check_trait<S: Cancel>(c: &Case, ctx: &mut CaseCtx) -> Result<(), Failure> {
+pub fn check_trait<S: Cancel + crate::attacks::Attack>(c: &Case, ctx: &mut CaseCtx) -> Result<(), Failure> {
     let tier = current_tier();
     let Ok(sess) = Session::<S>::build(&c.scn, tier) else {
         ctx.label("build_failed(C01)");
@@ -248,6 +249,34 @@ pub fn check_trait<S: Cancel>(c: &Case, ctx: &mut CaseCtx) -> Result<(), Failure
             proofs.remove(g1);
             list_changed = true;
             ctx.nontrivial = true;
+        }
+        10 => {
+            // a forgery built with the library's own prover for the first label in the batch's order (its
+            // transcript starts from the session's initial sponge), presented with the false values it claims
+            let g0 = &sess.groups[0];
+            match S::forge(&sess, &g0.polys, &g0.point, sel >> 8) {
+                Some(f) if f.guard_log2.map(|lp| lp <= -40.0).unwrap_or(true) => {
+                    let truth0: Vec<S::F> = g0.polys.iter().map(|i| sess.true_value(*i, &g0.point)).collect();
+                    if f.claimed == truth0 {
+                        variant = 0;
+                    } else {
+                        for (i, v) in g0.polys.iter().zip(&f.claimed) {
+                            evals.insert(key(0, *i), *v);
+                        }
+                        proofs[0] = f.proof;
+                        all_true = false;
+                        list_changed = true;
+                        ctx.nontrivial = true;
+                        ctx.label("prover_built_forgery_in_the_batch");
+                    }
+                }
+                _ => {
+                    variant = 1;
+                    let p = pick_poly(g1, sel >> 24);
+                    *evals.get_mut(&key(g1, p)).unwrap() += d;
+                    all_true = false;
+                }
+            }
         }
         9 => {
             // prefer two labels that carry the same point value (there the KZG batch equation is blind
@@ -614,7 +643,7 @@ pub fn spec() -> PropertySpec {
     units.push(PropUnit::new("C05:skzg:multi-vs-truth", 300, 2400, 2, |_| sk_case().boxed(), check_sk));
     PropertySpec {
         id: "C05",
-        rule: "Query sets with >=2 point labels (few distinct point values, so labels share them) over 2-5 polynomials; variants: all true, one false claim, plain cancelling pair (+d,-d) inside one label, across two labels, challenge-weighted cancellation across two labels that carry one point value (opening challenges replayed by the harness; Marlin/Sonic/PST13 schedules), proofs swapped / duplicated / one missing / one surplus, a random group element added to the accumulated proof element of one label and subtracted from another's (KZG witness, PST13 witness, IPA final key). Oracles: (a) the batch decision is the same under three verifier RNG seeds; (b) it equals the AND of the scheme's own single-point checks run label by label on one threaded sponge with the same proof list; (c) it equals the ground truth (accept iff every claim is true and the proof list is the honest one; swapped or duplicated proofs count as changed only if their bytes differ). KZG10::batch_check is compared with KZG10::check on claims whose points come from a pool of <=2 values (adjacent same-point claims included); streaming verify_multi_points is compared with the truth of every (polynomial, point) claim under a random batching challenge, including surplus rows of claims beyond the committed polynomials. Non-trivial: a false claim outside the first label, a cancelling pair, or a proof-list change.",
+        rule: "Query sets with >=2 point labels (few distinct point values, so labels share them) over 2-5 polynomials; variants: all true, one false claim, plain cancelling pair (+d,-d) inside one label, across two labels, challenge-weighted cancellation across two labels that carry one point value (opening challenges replayed by the harness; Marlin/Sonic/PST13 schedules), proofs swapped / duplicated / one missing / one surplus, a random group element added to the accumulated proof element of one label and subtracted from another's (KZG witness, PST13 witness, IPA final key), the first label's proof replaced by a prover-built forgery of C03's catalogue (IPA: identity-padded generators; code-based: window forgery). Oracles: (a) the batch decision is the same under three verifier RNG seeds; (b) it equals the AND of the scheme's own single-point checks run label by label on one threaded sponge with the same proof list; (c) it equals the ground truth (accept iff every claim is true and the proof list is the honest one; swapped or duplicated proofs count as changed only if their bytes differ). KZG10::batch_check is compared with KZG10::check on claims whose points come from a pool of <=2 values (adjacent same-point claims included); streaming verify_multi_points is compared with the truth of every (polynomial, point) claim under a random batching challenge, including surplus rows of claims beyond the committed polynomials. Non-trivial: a false claim outside the first label, a cancelling pair, or a proof-list change.",
         assumptions: vec![
             "the batching challenge / verifier RNG are honest randomness (degenerate challenges such as eta in {0,1} are outside the property)",
             "challenge-weighted cancellation *inside* one label is not generated: the library leaves absorbing the claimed values to the caller, so such claims verify by design",
